@@ -47,7 +47,13 @@ func resolveStruct(rv reflect.Value, fieldName string) (any, bool) {
 
 	// Try field name first
 	if f, ok := rt.FieldByName(fieldName); ok {
-		fv := rv.FieldByIndex(f.Index)
+		if !f.IsExported() {
+			return nil, false
+		}
+		fv, err := rv.FieldByIndexErr(f.Index)
+		if err != nil {
+			return nil, false
+		}
 		return fv.Interface(), true
 	}
 
@@ -55,14 +61,17 @@ func resolveStruct(rv reflect.Value, fieldName string) (any, bool) {
 	for i := range rt.NumField() {
 		f := rt.Field(i)
 		tag := f.Tag.Get("json")
-		if tag == "" {
+		if tag == "" || !f.IsExported() {
 			continue
 		}
 
 		// Parse the JSON tag, stripping options (e.g., "user_id,omitempty" -> "user_id")
 		tagName := strings.Split(tag, ",")[0]
 		if tagName == fieldName {
-			fv := rv.FieldByIndex(f.Index)
+			fv, err := rv.FieldByIndexErr(f.Index)
+			if err != nil {
+				return nil, false
+			}
 			return fv.Interface(), true
 		}
 	}
